@@ -8,7 +8,7 @@
 (***************************************************************************)
 EXTENDS Base
 
-NoMax == 99          \* maxlevel=None (larger than any depth in the bounded models)
+NoMax == 100000      \* maxlevel=None (larger than any depth in any model or trace)
 NoBound == -1        \* mincount / maxcount = None
 
 (************************** C04: navigation ********************************)
@@ -16,7 +16,9 @@ RECURSIVE PathTo(_, _)                       \* node.path: root ... n
 PathTo(par, n) == IF par[n] = Nil THEN <<n>> ELSE Append(PathTo(par, par[n]), n)
 Ancestors(par, n) == SubSeq(PathTo(par, n), 1, Len(PathTo(par, n)) - 1)
 RootOf(par, n) == PathTo(par, n)[1]
-Depth(par, n) == Len(Ancestors(par, n))
+\* (linear recursion: the trees of MC_QueryBig are hundreds of levels deep; Lem_Nav checks Depth = Len(Ancestors) on every small shape)
+RECURSIVE Depth(_, _)
+Depth(par, n) == IF par[n] = Nil THEN 0 ELSE 1 + Depth(par, par[n])
 IsRoot(par, n) == par[n] = Nil
 IsLeaf(ch, n) == ch[n] = <<>>
 Siblings(par, ch, n) == IF par[n] = Nil THEN <<>> ELSE Rm(ch[par[n]], n)
@@ -58,9 +60,18 @@ Nav(par, ch, n) ==
 RelDepth(par, s, m) == Depth(par, m) - Depth(par, s)
 \* by increasing depth; within a depth in the order of their parents and then sibling order
 \* (= the pre-order, stably sorted by depth)
-Groups(par, ch, s) ==
+GroupsDef(par, ch, s) ==
   LET pre == PreOrder(ch, s) IN
   [d \in 1..(Height(ch, s) + 1) |-> SelectSeq(pre, LAMBDA m: RelDepth(par, s, m) = d - 1)]
+\* the same in one pass: the pre-order distributed over one bucket per depth (Lem_Orders: Groups = GroupsDef on every small
+\* shape; on the deep trees of MC_QueryBig the definition above costs seconds per evaluation)
+RECURSIVE Bucket(_, _, _)
+Bucket(seq, dep, acc) == IF seq = <<>> THEN acc
+                         ELSE Bucket(Tail(seq), dep, [acc EXCEPT ![dep[Head(seq)] + 1] = Append(@, Head(seq))])
+Groups(par, ch, s) ==
+  LET pre == PreOrder(ch, s)
+      dep == [m \in SetOf(pre) |-> RelDepth(par, s, m)]
+  IN Bucket(pre, dep, [d \in 1..(Height(ch, s) + 1) |-> <<>>])
 LevelOrder(par, ch, s) == Flat(Groups(par, ch, s))
 ZigZag(par, ch, s) == LET g == Groups(par, ch, s) IN [d \in 1..Len(g) |-> IF d % 2 = 0 THEN Rev(g[d]) ELSE g[d]]
 
